@@ -606,10 +606,10 @@ func R25() Rule {
 				}
 			}
 		}
-		if nPanic < 10 {
+		if nPanic < 5 {
 			c.Unknown("R25", "floor/panics", token.NoPos, "only %d explicit panics found", nPanic)
 		}
-		if nAssert < 3 {
+		if nAssert < 2 {
 			c.Unknown("R25", "floor/assertions", token.NoPos, "only %d unchecked type assertions found", nAssert)
 		}
 	}}
